@@ -31,16 +31,26 @@ THEOREMS = [
     "PorepyVerif.C46.sparseK_refines_dictK",
     "PorepyVerif.C46.sparseK_refines_dictK_from_empty",
     "PorepyVerif.C46.addK_ret",
+    # deepening round B: clauses of the property for every history, neighbouring entry points
+    "PorepyVerif.C46.never_inserted_raises",
+    "PorepyVerif.C46.inserted_reads_dict",
+    "PorepyVerif.C46.stored_iff_inserted",
+    "PorepyVerif.C46.int_proximity_is_equality",
+    "PorepyVerif.C46.add_ret_sorted_fresh",
+    "PorepyVerif.C46.assignValues_spec",
 ]
 LEAN_MODULES = ["PorepyVerif.C46.Props"]
 AUDIT = "PorepyVerif/C46/Audit.lean"
 DRIVER = "PorepyVerif/C46/Driver.lean"
 N = {"quick": 300, "thorough": 6000}
-RULE = ("histories of 1-14 (thorough: 1-30) add/get calls on SparseNdArray(dim 1-3, value_dim 1-3), drawn from seven strata: "
+RULE = ("histories of 1-14 (thorough: 1-30) add/get calls on SparseNdArray(dim 1-3, value_dim 1-3), drawn from eleven strata: "
         "random (coordinates from a box of side 2-4 so that duplicates inside and across batches are frequent); gets before the first add; "
         "the same batch added repeatedly (additive and overwriting mixed); batches whose coordinates are all equal; "
         "negative and large coordinates (+-10^6 and neighbours); add with an empty coordinate list (early return) between other calls; "
-        "many in-batch duplicates of NEW coordinates (first occurrence != last occurrence, for the returned index vector). "
+        "many in-batch duplicates of NEW coordinates (first occurrence != last occurrence, for the returned index vector); "
+        "size 0/1 (a single call, single coordinates); the same coordinate set added in permuted orders; strictly increasing batches of new coordinates "
+        "(what AdaptiveInterpolationTable._fill_values passes); AdaptiveInterpolationTable.assign_values(val, coord, indices) on a table with dyadic base point and "
+        "resolution (entry point to add; checks the side array _pt), incl. empty, duplicated and already stored indices. "
         "Values are small dyadic rationals (binary64 exact). get([]) is never generated (outside the property: the real code raises "
         "IndexError/ValueError from numpy/KDTree glue on an empty inquiry, a dictionary would return nothing). "
         "non-trivial = at least one batch updates >=2 already stored coordinates or has an in-batch duplicate, and at least one get; "
@@ -54,13 +64,17 @@ EXPLANATION = ("FULL: model = storage lists + add/get as coded; theorem sparse_r
                "(values updated) ++ new distinct coordinates sorted (isort_sorted_perm, lexLe_total_order, uniqueCoords_spec, freshCoords_spec); add_ret_is_storage_permutation: "
                "the appended columns are the batch coordinates at the returned positions, in that order (docstring of the return value). "
                "add_overwrite_last / add_additive_sum / add_untouched restate the docstring of add. "
+               "never_inserted_raises / inserted_reads_dict / stored_iff_inserted state the two clauses of the property text for every history directly; int_proximity_is_equality: "
+               "the tolerance match of intersect_sets on integer columns is exact equality; add_ret_sorted_fresh: identity permutation for sorted new batches (_fill_values); "
+               "assignValues_spec: assign_values of the adaptive table keeps _pt aligned with the stored indices and overwrites like a dictionary. "
                "Correspondence compares get results, add's returned index vector and the final storage (coords order and values) exactly; the oracle checks dict semantics, "
                "the returned vector against its specification and the storage order after every add on the real code.")
 ASSUMPTIONS = ["values are exact in binary64 (dyadic generator) so that the rational model and the float implementation agree exactly",
                "get is called with at least one coordinate (get([]) raises IndexError for dim 1 and ValueError for dim >= 2 in the real code; excluded, not modelled)",
                "value_dim >= 1 and every add passes a (value_dim x n) value array for n coordinates (hypotheses OpK.WF, 0 < k of the k-row theorems)"]
 
-STRATA = ["random", "random", "random", "get_first", "repeat_batch", "all_equal", "large", "empty_add", "dup_new"]
+STRATA = ["random", "random", "random", "get_first", "repeat_batch", "all_equal", "large", "empty_add", "dup_new",
+          "tiny", "permuted", "sorted_fresh", "table", "table"]
 BIG = 10 ** 6
 
 
@@ -84,12 +98,40 @@ def _get(rng, seen, fresh_coord, kmax=5, p_missing=0.15):
     return {"op": "get", "coords": coords}
 
 
+def gen_table_case(rng, tier, dim, vdim, side):
+    """AdaptiveInterpolationTable without a function: assign_values(val, coord, indices) and reads of
+    the underlying sparse array. Base point and resolution are dyadic so that coord is exact."""
+    base = [frac(Fraction(rng.randint(-8, 8), rng.choice([1, 2, 4]))) for _ in range(dim)]
+    h = [frac(Fraction(rng.choice([1, 2, 3, 5, 8]), rng.choice([1, 2, 4, 8]))) for _ in range(dim)]
+    ops, seen = [], set()
+    coord = lambda: [rng.randrange(-2, side) for _ in range(dim)]
+    for _ in range(rng.randint(1, 8 if tier == "quick" else 16)):
+        u = rng.random()
+        if u < 0.65 or not seen:
+            n = rng.choice([0, 1, 1, 2, 3, 4, 6])
+            cs = [coord() for _ in range(n)]
+            if cs and rng.random() < 0.4:  # duplicates inside the batch
+                cs += [list(rng.choice(cs)) for _ in range(rng.randint(1, 3))]
+                rng.shuffle(cs)
+            op = _add(rng, cs, vdim, False)
+            op["op"] = "assign"
+            ops.append(op)
+            seen.update(map(tuple, cs))
+        else:
+            ops.append(_get(rng, seen, coord))
+    return {"kind": "table", "dim": dim, "value_dim": vdim, "stratum": "table", "base": base, "h": h, "ops": ops}
+
+
 def gen_case(rng, tier):
     stratum = rng.choice(STRATA)
     dim = rng.choice([1, 1, 2, 3])
     vdim = rng.choice([1, 1, 2, 3])
     side = rng.choice([2, 3, 4])
     nops = rng.randint(1, 14 if tier == "quick" else 30)
+    if stratum == "table":
+        return gen_table_case(rng, tier, dim, vdim, side)
+    if stratum == "tiny":
+        nops = rng.choice([1, 1, 2])
     if stratum == "large":
         axis = [-BIG, -BIG + 1, -1, 0, 1, BIG - 1, BIG]
         coord = lambda: [rng.choice(axis) for _ in range(dim)]
@@ -119,9 +161,29 @@ def gen_case(rng, tier):
             seen.update(map(tuple, base))
             if rng.random() < 0.7:
                 ops.append(_get(rng, seen, wide))
+    if stratum == "permuted":
+        # the same multiset of (coordinate, value) pairs in several orders
+        base = [coord() for _ in range(rng.randint(2, 6))]
+        template = _add(rng, base, vdim)
+        for _ in range(rng.randint(2, 3)):
+            perm = list(range(len(base)))
+            rng.shuffle(perm)
+            ops.append({"op": "add", "coords": [base[i] for i in perm], "values": [[row[i] for i in perm] for row in template["values"]],
+                        "additive": rng.random() < 0.5})
+            seen.update(map(tuple, base))
+            ops.append(_get(rng, seen, wide))
     while len(ops) < nops:
         u = rng.random()
-        if stratum == "all_equal" and u < 0.6:
+        if stratum == "tiny":
+            if u < 0.6:
+                push_add([coord()])
+            else:
+                ops.append({"op": "get", "coords": [coord()]})
+        elif stratum == "sorted_fresh" and u < 0.6:
+            # strictly increasing coordinates, none stored: the returned vector must be the identity
+            cand = sorted({tuple(coord()) for _ in range(rng.randint(1, 6))} - seen)
+            push_add([list(c) for c in cand])
+        elif stratum == "all_equal" and u < 0.6:
             c = coord()
             push_add([c] * rng.randint(1, 5))
         elif stratum == "empty_add" and u < 0.3:
@@ -147,7 +209,76 @@ def _vals_array(op, vdim):
     return np.array([[float(Fraction(v)) for v in row] for row in op["values"]], dtype=float).reshape(vdim, len(op["coords"]))
 
 
+def _table(case):
+    from porepy.utils.interpolation_tables import AdaptiveInterpolationTable
+    return AdaptiveInterpolationTable(dx=np.array([float(Fraction(x)) for x in case["h"]]),
+                                      base_point=np.array([float(Fraction(x)) for x in case["base"]]), function=None, dim=case["value_dim"])
+
+
+def _assign(t, op, case):
+    ind = np.array(op["coords"], dtype=int).reshape(len(op["coords"]), case["dim"]).T
+    coord = t._base_point + t._h * ind  # exact: dyadic base point and resolution, small integers
+    t.assign_values(_vals_array(op, case["value_dim"]), coord, ind)
+
+
+def _pt_cols(t):
+    return [[frac(x) for x in col] for col in t._pt.T]
+
+
+def impl_run_table(case):
+    t = _table(case)
+    out = []
+    for op in case["ops"]:
+        try:
+            if op["op"] == "assign":
+                _assign(t, op, case)
+                out.append({"pt": _pt_cols(t)})
+            else:
+                v = t._table.get(_arrs(op["coords"]))
+                out.append({"vals": [[frac(x) for x in row] for row in np.atleast_2d(v)]})
+        except Exception as e:
+            out.append(err_kind(e))
+    a = t._table
+    out.append({"coords": [[int(x) for x in col] for col in a._coords.T], "values": [[frac(x) for x in row] for row in a._values], "pt": _pt_cols(t)})
+    return out
+
+
+def oracle_table(case):
+    """assign_values on the real adaptive table: dictionary semantics of the underlying array (overwrite)
+    and alignment of the side array: _pt[:, j] == base_point + h * _coords[:, j] for every stored column."""
+    t = _table(case)
+    base = [Fraction(x) for x in case["base"]]
+    h = [Fraction(x) for x in case["h"]]
+    d = {}
+    for k, op in enumerate(case["ops"]):
+        if op["op"] == "assign":
+            vals = [[Fraction(v) for v in row] for row in op["values"]]
+            try:
+                _assign(t, op, case)
+            except Exception as e:
+                return {"what": f"assign_values of {len(op['coords'])} indices raised {type(e).__name__}: {e} (op {k})", "key": "assign-raises"}
+            for i, c in enumerate(op["coords"]):
+                d[tuple(c)] = [row[i] for row in vals]
+            cols = [tuple(int(x) for x in col) for col in t._table._coords.T]
+            if sorted(cols) != sorted(d):
+                return {"what": f"stored indices {cols} are not the assigned indices {sorted(d)} (op {k})", "key": "assign-stored-set"}
+            pt = [[Fraction(float(x)) for x in col] for col in t._pt.T]
+            want = [[b + hh * ci for b, hh, ci in zip(base, h, c)] for c in cols]
+            if pt != want:
+                return {"what": f"_pt columns {[[str(x) for x in p] for p in pt]} are not the grid points {[[str(x) for x in w] for w in want]} of the stored indices {cols} (op {k})", "key": "pt-misaligned"}
+            got_vals = [[Fraction(float(x)) for x in t._table._values[:, j]] for j in range(len(cols))]
+            if got_vals != [d[c] for c in cols]:
+                return {"what": f"stored values after assign_values differ from the dictionary (op {k})", "key": "assign-values"}
+        else:
+            bad = _check_get(t._table, d, op, k)
+            if bad:
+                return bad
+    return None
+
+
 def impl_run(case):
+    if case.get("kind") == "table":
+        return impl_run_table(case)
     from porepy.utils.array_operations import SparseNdArray
     a = SparseNdArray(case["dim"], value_dim=case["value_dim"])
     out = []
@@ -167,15 +298,20 @@ def impl_run(case):
 
 def model_ops(case):
     ops = [{"op": "init", "value_dim": case["value_dim"]}]
+    table = case.get("kind") == "table"
     for op in case["ops"]:
-        if op["op"] == "add":
+        if op["op"] == "assign":
+            n = len(op["coords"])
+            cols = [[row[j] for row in op["values"]] for j in range(n)]
+            ops.append({"op": "assign", "coords": op["coords"], "cols": cols, "base": case["base"], "h": case["h"]})
+        elif op["op"] == "add":
             n = len(op["coords"])
             # the model takes value COLUMNS: cols[j] = values[:, j]
             cols = [[row[j] for row in op["values"]] for j in range(n)]
             ops.append({"op": "add", "coords": op["coords"], "cols": cols, "additive": op["additive"]})
         else:
             ops.append({"op": "get", "coords": op["coords"]})
-    return ops + [{"op": "dump"}]
+    return ops + [{"op": "dump_table" if table else "dump"}]
 
 
 def model_decode(outs, case):
@@ -213,6 +349,8 @@ def _check_ret(r, stored, coords, k):
 def oracle(case):
     """The property itself on the real code: compare with a python dict under the same operations;
     after every add also the returned vector and the storage order against their specifications."""
+    if case.get("kind") == "table":
+        return oracle_table(case)
     from porepy.utils.array_operations import SparseNdArray
     a = SparseNdArray(case["dim"], value_dim=case["value_dim"])
     d = {}
@@ -248,18 +386,25 @@ def oracle(case):
             if got_vals != [d[c] for c in order]:
                 return {"what": f"stored values after add differ from the dictionary (op {k})", "key": "storage-values"}
         else:
-            want_err = any(tuple(c) not in d for c in op["coords"])
-            try:
-                v = np.atleast_2d(a.get(_arrs(op["coords"])))
-                got = [[Fraction(float(x)) for x in v[:, i]] for i in range(v.shape[1])]
-                if want_err:
-                    return {"what": f"get of a never-inserted coordinate did not raise (op {k})", "key": "get-missing-no-error"}
-                want = [d[tuple(c)] for c in op["coords"]]
-                if got != want:
-                    return {"what": f"get returned {[[str(x) for x in g] for g in got]} but a dict holds {[[str(x) for x in w] for w in want]} (op {k})", "key": "get-differs-from-dict"}
-            except ValueError:
-                if not want_err:
-                    return {"what": f"get of inserted coordinates raised ValueError (op {k})", "key": "get-present-raises"}
+            bad = _check_get(a, d, op, k)
+            if bad:
+                return bad
+    return None
+
+
+def _check_get(a, d, op, k):
+    want_err = any(tuple(c) not in d for c in op["coords"])
+    try:
+        v = np.atleast_2d(a.get(_arrs(op["coords"])))
+        got = [[Fraction(float(x)) for x in v[:, i]] for i in range(v.shape[1])]
+        if want_err:
+            return {"what": f"get of a never-inserted coordinate did not raise (op {k})", "key": "get-missing-no-error"}
+        want = [d[tuple(c)] for c in op["coords"]]
+        if got != want:
+            return {"what": f"get returned {[[str(x) for x in g] for g in got]} but a dict holds {[[str(x) for x in w] for w in want]} (op {k})", "key": "get-differs-from-dict"}
+    except ValueError:
+        if not want_err:
+            return {"what": f"get of inserted coordinates raised ValueError (op {k})", "key": "get-present-raises"}
     return None
 
 
@@ -267,7 +412,7 @@ def nontrivial(case):
     seen = set()
     hard = False
     for op in case["ops"]:
-        if op["op"] == "add":
+        if op["op"] in ("add", "assign"):
             cs = list(map(tuple, op["coords"]))
             if len(set(cs)) < len(cs) or len(set(cs) & seen) >= 2:
                 hard = True
@@ -277,7 +422,7 @@ def nontrivial(case):
 
 def signature(case):
     import json
-    return json.dumps({"dim": case["dim"], "value_dim": case["value_dim"], "ops": case["ops"]}, sort_keys=True)
+    return json.dumps({k: v for k, v in case.items() if k != "stratum"}, sort_keys=True)
 
 
 def shrink_candidates(case):
@@ -289,13 +434,13 @@ def shrink_candidates(case):
         if k > 1:  # never shrinks to an empty inquiry (get([]) is outside the property)
             for j in range(k):
                 op2 = dict(op, coords=op["coords"][:j] + op["coords"][j + 1:])
-                if op["op"] == "add":
+                if op["op"] in ("add", "assign"):
                     op2["values"] = [row[:j] + row[j + 1:] for row in op["values"]]
                 yield dict(case, ops=ops[:i] + [op2] + ops[i + 1:])
 
 
 def stats(cases, impl_outs):
-    adds = [o for c in cases for o in c["ops"] if o["op"] == "add"]
+    adds = [o for c in cases for o in c["ops"] if o["op"] in ("add", "assign")]
     n_get = sum(1 for c in cases for o in c["ops"] if o["op"] == "get")
     n_err = sum(1 for out in impl_outs for o in out if isinstance(o, dict) and "err" in o)
 
@@ -305,6 +450,10 @@ def stats(cases, impl_outs):
 
     return {"adds": len(adds), "gets": n_get, "get_errors": n_err, "additive_adds": sum(1 for o in adds if o.get("additive")),
             "empty_adds": sum(1 for o in adds if not o["coords"]),
+            "assign_values_calls": sum(1 for o in adds if o["op"] == "assign"),
+            "single_op_cases": sum(1 for c in cases if len(c["ops"]) == 1),
+            "single_coordinate_adds": sum(1 for o in adds if len(o["coords"]) == 1),
+            "sorted_new_batches": sum(1 for c in cases if c.get("stratum") == "sorted_fresh" for o in c["ops"] if o["op"] == "add" and len(o["coords"]) > 1),
             "adds_with_in_batch_duplicates": sum(1 for o in adds if first_ne_last(o)),
             "adds_all_coordinates_equal": sum(1 for o in adds if len(o["coords"]) > 1 and len(set(map(tuple, o["coords"]))) == 1),
             "cases_with_large_coordinates": sum(1 for c in cases if any(abs(x) >= BIG - 1 for o in c["ops"] for cc in o["coords"] for x in cc)),
